@@ -56,11 +56,15 @@ def run(chk):
     # ---- (1) cache key completeness ------------------------------------------------------------
     comp = methods["compute"]
     params = [p for p in comp.params if p != "self"]
+    # the key is whatever indexes the cache in compute(): `self.cache[K] = ...` with K a local name -> its (single) definition
     key_assign = None
+    slots = [t.slice for st in ast.walk(comp.node) if isinstance(st, ast.Assign) for t in st.targets
+             if isinstance(t, ast.Subscript) and _is_self_attr(t.value, "cache")]
+    key_name = slots[0].id if slots and isinstance(slots[0], ast.Name) else None
     for st in ast.walk(comp.node):
-        if isinstance(st, ast.Assign) and any(isinstance(t, ast.Name) and t.id == "key" for t in st.targets):
+        if isinstance(st, ast.Assign) and any(isinstance(t, ast.Name) and t.id == key_name for t in st.targets):
             key_assign = st
-    chk.need(key_assign is not None, "compute() no longer builds a `key`")
+    chk.need(key_assign is not None, "compute() no longer stores into self.cache under a key built in a local variable")
     key_names = {n.id for n in ast.walk(key_assign.value) if isinstance(n, ast.Name)}
     for p in params:
         chk.decide(p in key_names, "cache-key-completeness", comp.qname,
